@@ -9,7 +9,7 @@ except ImportError:  # pragma: no cover
 import z3
 from .core import (V, VStr, VNone, VList, VDict, is_str, is_none, Int, Str, Bool, ArrIntS, Val, C, S, B, I, R, T, Obj)
 from .interp import OutOfReach
-from .models_ops import norm, kind_of, str_term, raise_, int_term
+from .models_ops import norm, kind_of, str_term, raise_, int_term, resolve_kind
 from .models_calls import ufun, used
 
 
@@ -26,11 +26,36 @@ def py_flags(flags):
     return f
 
 
+def literal_alternatives(sub):
+    """if the sub-pattern is a literal or an alternation of literals, the list of strings it can match; else None"""
+    def lit(items):
+        out = ''
+        for op, av in items:
+            if str(op) == 'LITERAL':
+                out += chr(av)
+            else:
+                return None
+        return out
+    items = list(sub)
+    if len(items) == 1 and str(items[0][0]) == 'BRANCH':
+        alts = [lit(a) for a in items[0][1][1]]
+        return None if any(a is None for a in alts) else alts
+    if len(items) == 1 and str(items[0][0]) == 'IN':
+        alts = [chr(av) for op, av in items[0][1] if str(op) == 'LITERAL']
+        return alts if len(alts) == len(items[0][1]) else None
+    one = lit(items)
+    return None if one is None else [one]
+
+
+GROUP_LITERALS = {}
+
+
 def group_info(pattern):
     """{group name or index: optional?} — a group is optional when it lies under a repeat with min 0 or in a branch."""
     parsed = sre_parse.parse(pattern)
     names = {v: k for k, v in parsed.state.groupdict.items()}
     info = {}
+    lits = GROUP_LITERALS.setdefault(pattern, {})
 
     def walk(items, optional):
         for op, av in items:
@@ -39,8 +64,13 @@ def group_info(pattern):
                 gid, _, _, sub = av
                 if gid is not None:
                     info[gid] = optional
+                    alts = literal_alternatives(sub)
+                    if alts is not None:
+                        lits[gid] = alts
                     if gid in names:
                         info[names[gid]] = optional
+                        if alts is not None:
+                            lits[names[gid]] = alts
                 walk(sub, optional)
             elif opn in ('MAX_REPEAT', 'MIN_REPEAT', 'POSSESSIVE_REPEAT'):
                 lo, hi, sub = av
@@ -81,7 +111,7 @@ def regex_method(ip, rx, name, args, kwargs):
     rid = rx.f.get('name') or ('pat:' + pattern)
     if name in ('match', 'search'):
         subj = cargs[0]
-        if kind_of(ip, subj) != 'str':
+        if (kind_of(ip, subj) or resolve_kind(ip, subj, ('str',))) != 'str':
             raise_('TypeError', 'expected string or bytes-like object')
         # whether a pattern matches is a function of the subject (uninterpreted)
         fn = ufun(f'RE_{name.upper()}_{rid}', Str, Bool)
@@ -90,7 +120,7 @@ def regex_method(ip, rx, name, args, kwargs):
         return C(None)
     if name == 'sub':
         repl, subj = cargs[0], cargs[1]
-        if kind_of(ip, subj) != 'str':
+        if (kind_of(ip, subj) or resolve_kind(ip, subj, ('str',))) != 'str':
             raise_('TypeError', 'expected string or bytes-like object')
         rtext = repl.py if isinstance(repl, C) else None
         if rtext is None:
@@ -100,7 +130,7 @@ def regex_method(ip, rx, name, args, kwargs):
         return T(f(str_term(ip, subj)))
     if name == 'split':
         subj = cargs[0]
-        if kind_of(ip, subj) != 'str':
+        if (kind_of(ip, subj) or resolve_kind(ip, subj, ('str',))) != 'str':
             raise_('TypeError', 'expected string or bytes-like object')
         n = ctx.fresh('nsplit', Int)
         parts = ctx.fresh('resplit', ArrIntS)
@@ -139,6 +169,10 @@ def match_group(ip, m, idx):
     if val is None:
         g = ctx.fresh(f'grp_{key}', Str)
         ctx.assume(z3.Length(g) <= z3.Length(subj))
+        alts = GROUP_LITERALS.get(m.f['regex'].f['pattern'], {}).get(key)
+        if alts is not None:
+            # derived from the pattern tree: the group is an alternation of literals
+            ctx.assume(z3.Or([g == z3.StringVal(a) for a in alts]))
         if key != 0 and info[key]:
             isnone = ctx.fresh(f'grpnone_{key}', Bool)
             val = S(z3.If(isnone, VNone, VStr(g)))
